@@ -342,7 +342,14 @@ class _OneofRun:
             return self.op_set_member()
         mem = self.tape.choice(ONEOFS_MEMBERS, "nested-member")
         k = self.tape.draw(len(mem.variants), "variant")
-        setattr(self.m.o, mem.name, mem.variants[k][0]())
+        sub = self.m.o
+        setattr(sub, mem.name, mem.variants[k][0]())
+        if self.m.o is not sub:
+            # an implementation whose lazily created default is not attached to the parent by the read: what
+            # was assigned went to a detached object - C07 says nothing about that; stop tracking the nested message
+            self.live[self.cur]["nested"] = None
+            self.stats["recorded:lazy-default-not-attached-by-read"] += 1
+            return f"set o.{mem.name}=#{k} (on a detached default; nested message no longer tracked)"
         nm["sel"][mem.group] = mem.name
         nm["val"][mem.name] = mem.variants[k][0]()
         self.stats["probe:nested-oneof-member-assigned-in-place"] += 1
@@ -434,6 +441,11 @@ class _OneofRun:
             # rejects it): raising is as good an answer as picking one
             raised = type(e).__name__
             self.stats["probe:from_dict-rejected-two-members-of-a-group"] += 1
+            if form != 2:
+                # the class form / the fresh instance never came into being: go on with a fresh empty object
+                # (the model was reset before the call), as op_construct does
+                self.m = self.cls()
+                return f"from_dict[{form}]({', '.join(f'{k}' for k in d)}) -> raised {raised}; fresh empty object instead"
         desc = f"from_dict[{form}]({', '.join(f'{k}' for k in d)})" + (f" -> raised {raised}" if raised else "")
         for g in self.groups:
             listed = per_group[g]
@@ -840,10 +852,13 @@ def _bufferize(m, cls, tape) -> str:
     if not spots:
         return ""
     h, name, i = spots[tape.draw(len(spots), "bytearray-where")]
-    if i is None:
-        setattr(h, name, bytearray(getattr(h, name)))
-    else:
-        getattr(h, name)[i] = bytearray(getattr(h, name)[i])
+    try:
+        if i is None:
+            setattr(h, name, bytearray(getattr(h, name)))
+        else:
+            getattr(h, name)[i] = bytearray(getattr(h, name)[i])
+    except (TypeError, ValueError):
+        return " (bytearray not accepted in a bytes field)"     # an implementation may insist on bytes
     return f" +bytearray in {type(h).__name__}.{name}"
 
 
@@ -1163,17 +1178,6 @@ class _ObserverRun:
             steps += 1
             stats[f"fault:restart-{name.replace(' ', '-')}"] += 1
             self._q2(c, m, cls, name)
-            if kind != 2:
-                # the copy's OWN presence flag (it decides whether the copy is encoded once it is assigned to a
-                # field of a parent) is that of the object it was copied from; a pickle round trip goes through
-                # the wire form, which cannot carry it
-                try:
-                    sc, sb = betterproto.serialized_on_wire(c), betterproto.serialized_on_wire(base)
-                except Exception as e:  # noqa: BLE001
-                    raise Violation("C14.Q2", f"serialized_on_wire-raises-{type(e).__name__}", f"{name}: {e}")
-                if sc != sb:
-                    raise Violation("C14.Q2", f"presence-differs:{name.split()[0]}",
-                                    f"{name}: serialized_on_wire(copy) is {sc}, that of the object it was copied from is {sb}")
             copies.append((kind, c, name))
         trace.append("copies: " + ", ".join(n for _, _, n in copies))
         # the copies must not have disturbed the original either
